@@ -333,3 +333,457 @@ Proof.
   - simpl. apply (view_concat_gen xs [] H).
   - eapply Forall_impl; [|exact H]. intros x (S & _); auto.
 Qed.
+
+Lemma len_concat_zip {A} (h : ext -> list A) (g : Z -> A -> A) xs : forall a,
+  length (concat (zip_with (fun b o => map (g o) (h b)) xs (offs_from a xs))) = length (concat (map h xs)).
+Proof.
+  induction xs as [|x xs IH]; intros a; simpl; auto.
+  rewrite !app_length, map_length. f_equal. apply (IH (a + len (x_data x))).
+Qed.
+
+Lemma shape_concat xs : Forall shape_ok xs -> shape_ok (concatenate xs).
+Proof.
+  intros H. unfold shape_ok, concatenate; simpl.
+  change (offsets_of xs) with (offs_from 0 xs).
+  rewrite (len_concat_zip x_es Z.add), (len_concat_zip x_ee Z.add), (len_concat_zip x_fs (fun o => map (Z.add o))).
+  induction H as [|x xs (A & B & C) Hxs IH]; simpl; auto.
+  rewrite !app_length. destruct IH as (I1 & I2 & I3). repeat split; congruence.
+Qed.
+
+Lemma row_ok_shift dl total o r : row_ok dl r -> 0 <= o -> o + dl <= total -> row_ok total (shift o r).
+Proof.
+  intros (H0 & H1 & H2 & H3 & H4) Ho Ht. unfold row_ok, shift; simpl. repeat split; try lia.
+  - rewrite map_length; auto.
+  - clear - H4. remember (r_fl r) as fl. clear Heqfl. revert fl H4.
+    induction (r_fs r) as [|a fs IHf]; intros [|l fl] H4; simpl; auto.
+    inversion H4; subst. simpl in *. constructor; auto. simpl. lia.
+Qed.
+
+Lemma rows_ok_concat_gen xs : forall (pre : list Z) total, Forall Inv xs ->
+  len pre + len (concat (map x_data xs)) <= total ->
+  Forall (row_ok total) (concat (zip_with (fun b o => map (shift o) (rows b)) xs (offs_from (len pre) xs))).
+Proof.
+  induction xs as [|x xs IH]; intros pre total H Ht; simpl; auto.
+  inversion H as [|? ? (S & R & C) Hxs]; subst. simpl in Ht. rewrite len_app in Ht.
+  pose proof (len_nonneg pre). pose proof (len_nonneg (concat (map x_data xs))). pose proof (len_nonneg (x_data x)).
+  apply Forall_app. split.
+  - rewrite Forall_map. eapply Forall_impl; [|exact R]. intros r Hr. eapply row_ok_shift; eauto; lia.
+  - specialize (IH (pre ++ x_data x) total Hxs). rewrite len_app in IH. apply IH. lia.
+Qed.
+
+Lemma forallb_Forall {A} (p : A -> bool) l : forallb p l = true -> Forall (fun x => p x = true) l.
+Proof. rewrite forallb_forall, Forall_forall. auto. Qed.
+
+Lemma Inv_concat xs : Forall Inv xs -> Inv (concatenate xs).
+Proof.
+  intros H. assert (HS : Forall shape_ok xs) by (eapply Forall_impl; [|exact H]; intros x (S & _); auto).
+  split; [apply shape_concat; auto|]. split.
+  - rewrite rows_concat by auto. simpl.
+    apply (rows_ok_concat_gen xs [] _ H). simpl. lia.
+  - simpl. intros Hc. rewrite view_concat by auto. apply forallb_Forall in Hc.
+    clear HS. induction H as [|x xs (_ & _ & C) Hxs IH]; simpl; auto.
+    inversion Hc; subst. rewrite map_app, concat_app. f_equal; auto.
+Qed.
+
+(* ------------------------------------------------------------------ what the writer reads is a function of the view *)
+Lemma Inv_contiguous x : Inv x -> Inv (contiguous x).
+Proof. intros I. unfold contiguous. destruct (x_contig x); auto. apply Inv_mc; auto. Qed.
+Lemma view_contiguous x : Inv x -> view (contiguous x) = view x.
+Proof. intros I. unfold contiguous. destruct (x_contig x); auto. apply view_mc; auto. Qed.
+Lemma data_contiguous x : Inv x -> x_data (contiguous x) = concat (map a_rec (view x)).
+Proof.
+  intros I. unfold contiguous. destruct (x_contig x) eqn:E.
+  - destruct I as (_ & _ & C). auto.
+  - apply data_mc. destruct I; auto.
+Qed.
+
+Lemma zip4_map_gen {B} (G : Z -> Z -> list Z -> list Z -> B) ss : forall es fss fls,
+  length es = length ss -> length fss = length ss -> length fls = length ss ->
+  map (fun r => G (r_s r) (r_e r) (r_fs r) (r_fl r)) (zip4 ss es fss fls)
+  = zip_with (fun se ff => G (fst se) (snd se) (fst ff) (snd ff)) (combine ss es) (combine fss fls).
+Proof.
+  induction ss; intros [|? es] [|? fss] [|? fls]; simpl; intros; try discriminate; auto.
+  f_equal. apply IHss; lia.
+Qed.
+
+Lemma get_field_rows j x : shape_ok x ->
+  get_field j x = map (fun r => slice (nthZ (r_fs r) j) (nthZ (r_fs r) j + nthZ (r_fl r) j) (x_data x)) (rows x).
+Proof.
+  intros (A & B & C). unfold get_field, extract, col, rows.
+  rewrite (zip4_map_gen (fun _ _ fs fl => slice (nthZ fs j) (nthZ fs j + nthZ fl j) (x_data x))) by auto.
+  rewrite zip_with_map_l.
+  generalize (x_es x) (x_ee x) A B C. generalize (x_fl x). generalize (x_fs x).
+  induction l as [|f fss IH]; intros [|l fls] [|s ss] [|e es]; simpl; intros; try discriminate; auto.
+  f_equal. apply IH; lia.
+Qed.
+
+Lemma rest_rows j x : shape_ok x ->
+  rest_of_line j x = map (fun r => slice (nthZ (r_fs r) j) (nthZ (r_fs r) j + (r_e r - nthZ (r_fs r) j - 1)) (x_data x)) (rows x).
+Proof.
+  intros (A & B & C). unfold rest_of_line, extract, col, rows, vsub.
+  rewrite (zip4_map_gen (fun _ e fs _ => slice (nthZ fs j) (nthZ fs j + (e - nthZ fs j - 1)) (x_data x))) by auto.
+  generalize (x_es x) (x_ee x) A B C. generalize (x_fl x). generalize (x_fs x).
+  induction l as [|f fss IH]; intros [|l fls] [|s ss] [|e es]; simpl; intros; try discriminate; auto.
+  f_equal. apply IH; lia.
+Qed.
+
+Lemma extra_rows x : shape_ok x ->
+  sam_extra x = map (fun r => let st := last0 (r_fs r) + last0 (r_fl r) + 1 in
+                              slice st (st + Z.max (r_e r - st - 1) 0) (x_data x)) (rows x).
+Proof.
+  intros (A & B & C). unfold sam_extra, extract, rows, vsub.
+  rewrite (zip4_map_gen (fun _ e fs fl => let st := last0 fs + last0 fl + 1 in
+                                          slice st (st + Z.max (e - st - 1) 0) (x_data x))) by auto.
+  generalize (x_es x) (x_ee x) A B C. generalize (x_fl x). generalize (x_fs x).
+  induction l as [|f fss IH]; intros [|l fls] [|s ss] [|e es]; simpl; intros; try discriminate; auto.
+  f_equal. apply IH; lia.
+Qed.
+
+Lemma nth_combine_rel (g : Z -> Z) fs : forall fl k, length fs = length fl ->
+  nth k (combine (map g fs) fl) (0, 0) =
+  if (k <? length fs)%nat then (g (nth k fs 0), nth k fl 0) else (0, 0).
+Proof.
+  induction fs as [|a fs IH]; intros [|l fl] k H; simpl in *; try discriminate.
+  - destruct k; reflexivity.
+  - destruct k; simpl; auto. rewrite IH by lia. reflexivity.
+Qed.
+
+Lemma row_field_bounds dlen r k : row_ok dlen r -> (k < length (r_fs r))%nat ->
+  r_s r <= nth k (r_fs r) 0 /\ 0 <= nth k (r_fl r) 0 /\ nth k (r_fs r) 0 + nth k (r_fl r) 0 + 1 <= r_e r.
+Proof.
+  intros (_ & _ & _ & HL & HF) Hk. rewrite Forall_forall in HF.
+  specialize (HF (nth k (r_fs r) 0, nth k (r_fl r) 0)). simpl in HF. apply HF.
+  rewrite <- combine_nth by auto. apply nth_In. rewrite combine_length. lia.
+Qed.
+
+Lemma a_field_row data r j : row_ok (len data) r ->
+  a_field j (arow_of data r) = slice (nthZ (r_fs r) j) (nthZ (r_fs r) j + nthZ (r_fl r) j) data.
+Proof.
+  intros H. pose proof H as (H0 & H1 & H2 & HL & HF). unfold a_field, arow_of; simpl.
+  rewrite nth_combine_rel by auto. unfold nthZ.
+  destruct (Nat.ltb_spec (Z.to_nat j) (length (r_fs r))) as [Hk|Hk]; simpl.
+  - destruct (row_field_bounds _ _ _ H Hk) as (B1 & B2 & B3).
+    replace (nth (Z.to_nat j) (r_fs r) 0 - r_s r + nth (Z.to_nat j) (r_fl r) 0)
+      with (nth (Z.to_nat j) (r_fs r) 0 + nth (Z.to_nat j) (r_fl r) 0 - r_s r) by lia.
+    apply slice_slice; lia.
+  - rewrite !nth_overflow by lia. rewrite !slice_empty by lia. reflexivity.
+Qed.
+
+Lemma a_rest_row data r j : row_ok (len data) r -> (Z.to_nat j < length (r_fs r))%nat ->
+  a_rest j (arow_of data r) = slice (nthZ (r_fs r) j) (nthZ (r_fs r) j + (r_e r - nthZ (r_fs r) j - 1)) data.
+Proof.
+  intros H Hk. pose proof H as (H0 & H1 & H2 & HL & HF). unfold a_rest, arow_of; simpl.
+  rewrite nth_combine_rel by auto. unfold nthZ.
+  destruct (Nat.ltb_spec (Z.to_nat j) (length (r_fs r))) as [Hk'|Hk']; try lia. simpl.
+  destruct (row_field_bounds _ _ _ H Hk) as (B1 & B2 & B3).
+  rewrite len_slice by lia.
+  replace (r_e r - r_s r - 1) with (r_e r - 1 - r_s r) by lia.
+  replace (nth (Z.to_nat j) (r_fs r) 0 + (r_e r - nth (Z.to_nat j) (r_fs r) 0 - 1)) with (r_e r - 1) by lia.
+  apply slice_slice; lia.
+Qed.
+
+Lemma last_combine_rel (g : Z -> Z) fs : forall fl, length fs = length fl -> fs <> [] ->
+  last (combine (map g fs) fl) (0, 0) = (g (last fs 0), last fl 0).
+Proof.
+  induction fs as [|a fs IH]; intros [|l fl] H Hn; simpl in *; try discriminate; try congruence.
+  destruct fs as [|a' fs]; destruct fl as [|l' fl]; simpl in *; try discriminate; auto.
+  apply (IH (l' :: fl)); [simpl; lia | discriminate].
+Qed.
+
+Lemma last_nth {A} (l : list A) d : last l d = nth (length l - 1) l d.
+Proof.
+  induction l as [|a l IH]; [reflexivity|]. destruct l as [|b l]; [reflexivity|].
+  change (last (a :: b :: l) d) with (last (b :: l) d). rewrite IH.
+  change (length (a :: b :: l)) with (S (S (length l))). change (length (b :: l)) with (S (length l)).
+  replace (S (S (length l)) - 1)%nat with (S (S (length l) - 1))%nat by lia. reflexivity.
+Qed.
+
+Lemma a_extra_row data r : row_ok (len data) r -> r_fs r <> [] ->
+  a_extra (arow_of data r) = let st := last0 (r_fs r) + last0 (r_fl r) + 1 in
+                             slice st (st + Z.max (r_e r - st - 1) 0) data.
+Proof.
+  intros H Hn. pose proof H as (H0 & H1 & H2 & HL & HF). unfold a_extra, arow_of; simpl.
+  rewrite last_combine_rel by auto. simpl. unfold last0.
+  assert (Hk : (length (r_fs r) - 1 < length (r_fs r))%nat) by (destruct (r_fs r); simpl; try congruence; lia).
+  destruct (row_field_bounds _ _ _ H Hk) as (B1 & B2 & B3).
+  rewrite (last_nth (r_fs r)), (last_nth (r_fl r)). rewrite <- HL.
+  set (a := nth (length (r_fs r) - 1) (r_fs r) 0) in *. set (l := nth (length (r_fs r) - 1) (r_fl r) 0) in *.
+  rewrite len_slice by lia.
+  replace (a - r_s r + l + 1) with (a + l + 1 - r_s r) by lia.
+  replace (r_e r - r_s r - (a + l + 1 - r_s r) - 1) with (r_e r - (a + l + 1) - 1) by lia.
+  replace (a + l + 1 - r_s r + Z.max (r_e r - (a + l + 1) - 1) 0)
+    with (a + l + 1 + Z.max (r_e r - (a + l + 1) - 1) 0 - r_s r) by lia.
+  apply slice_slice; lia.
+Qed.
+
+Lemma a_rel_length data r : length (r_fs r) = length (r_fl r) -> length (a_rel (arow_of data r)) = length (r_fs r).
+Proof. intros H. unfold arow_of; simpl. rewrite combine_length, map_length. lia. Qed.
+
+Lemma get_field_view j x : Inv x -> get_field j x = map (a_field j) (view x).
+Proof.
+  intros (S & R & _). rewrite get_field_rows by auto. unfold view. rewrite map_map.
+  apply map_ext_Forall. eapply Forall_impl; [|exact R]. intros r Hr. symmetry. apply a_field_row; auto.
+Qed.
+
+Lemma rest_view j x : Inv x -> width_gt (Z.to_nat j) (view x) -> rest_of_line j x = map (a_rest j) (view x).
+Proof.
+  intros (S & R & _) W. rewrite rest_rows by auto. unfold view in *. rewrite map_map.
+  apply map_ext_Forall. unfold width_gt in W. rewrite Forall_map in W.
+  rewrite Forall_forall in *. intros r Hr. symmetry. apply a_rest_row; auto.
+  specialize (W r Hr). rewrite a_rel_length in W; auto. destruct (R r Hr) as (_ & _ & _ & HL & _); auto.
+Qed.
+
+Lemma extra_view x : Inv x -> width_gt 0 (view x) -> sam_extra x = map a_extra (view x).
+Proof.
+  intros (S & R & _) W. rewrite extra_rows by auto. unfold view in *. rewrite map_map.
+  apply map_ext_Forall. unfold width_gt in W. rewrite Forall_map in W.
+  rewrite Forall_forall in *. intros r Hr. symmetry. apply a_extra_row; auto.
+  specialize (W r Hr). rewrite a_rel_length in W; [|destruct (R r Hr) as (_ & _ & _ & HL & _); auto].
+  destruct (r_fs r); simpl in *; [lia|discriminate].
+Qed.
+
+(* ------------------------------------------------------------------ the lazy writer *)
+Lemma a_field_text_dummy f i : a_field_text f i dummy_arow = [].
+Proof.
+  destruct f; simpl; try destruct (i =? 8); try destruct (i =? 11); try destruct (i =? 2);
+    unfold a_field, a_rest, a_extra; simpl; try (destruct (Z.to_nat _); reflexivity); try reflexivity.
+  all: try (destruct (Z.to_nat i) as [|[|?]]; reflexivity).
+Qed.
+
+Lemma field_text_view f i x : Inv x -> width_ok f (view x) -> 0 <= i < n_fields f ->
+  field_text f i x = map (a_field_text f i) (view x).
+Proof.
+  intros I W Hi. destruct f; unfold field_text, a_field_text; simpl in *; try (apply get_field_view; auto).
+  - destruct (i =? 8) eqn:E; [|apply get_field_view; auto].
+    apply Z.eqb_eq in E; subst. apply rest_view; auto. apply W. lia.
+  - destruct (i =? 11) eqn:E; [|apply get_field_view; auto]. apply extra_view; auto.
+  - destruct (i =? 2) eqn:E; apply get_field_view; auto.
+Qed.
+
+Lemma transpose_n_seq n : forall cols,
+  transpose_n n cols = map (fun k => map (fun c => nth k c []) cols) (seq 0 n).
+Proof.
+  induction n as [|n IH]; intros cols; simpl; auto. f_equal.
+  - apply map_ext. intros [|? ?]; reflexivity.
+  - rewrite IH. rewrite <- seq_shift, map_map. apply map_ext. intros k. rewrite map_map.
+    apply map_ext. intros [|? ?]; simpl; auto. destruct k; reflexivity.
+Qed.
+
+Lemma view_length x : shape_ok x -> length (view x) = length (x_es x).
+Proof. intros (A & B & C). unfold view, rows. rewrite map_length. apply zip4_length; auto. Qed.
+
+Lemma In_arange_bounds n i : In i (arange n) -> 0 <= i < n.
+Proof. apply In_arange. Qed.
+
+Lemma lazy_rows_view vr f x sv : Inv x -> width_ok f (view x) ->
+  map (join_row vr f) (lazy_rows f x sv) = render_rows vr f (view x) sv.
+Proof.
+  intros I W. unfold lazy_rows, render_rows, lazy_columns. rewrite transpose_n_seq, map_map.
+  rewrite view_length by (destruct I; auto). apply map_ext. intros k. unfold render_row. f_equal.
+  rewrite map_map. apply map_ext_in. intros i Hi. apply In_arange_bounds in Hi.
+  destruct (sv_get sv i); auto.
+  rewrite field_text_view by auto.
+  rewrite <- (a_field_text_dummy f i) at 1. apply map_nth.
+Qed.
+
+Definition is_bam (f : fmt) : bool := match f with FBam => true | _ => false end.
+
+Lemma write_lazy vr f x sv : Inv x -> width_ok f (view x) -> (is_bam f = false \/ sv = []) ->
+  write vr f (SLazy x sv) =
+  Some (match sv with [] => concat (map a_rec (view x)) | _ => concat (render_rows vr f (view x) sv) end).
+Proof.
+  intros I W Hb. destruct sv as [|kc sv]; simpl.
+  - rewrite data_contiguous by auto. reflexivity.
+  - destruct Hb as [Hb|Hb]; [|discriminate].
+    rewrite <- (lazy_rows_view vr) by auto. destruct f; try reflexivity. discriminate.
+Qed.
+
+(* ------------------------------------------------------------------ programs *)
+Fixpoint prog_ind' (P : prog -> Prop)
+  (HS : P PSrc) (HI : forall sel p, P p -> P (PIdx sel p)) (HC : forall ps, Forall P ps -> P (PCat ps))
+  (HR : forall j txt p, P p -> P (PRepl j txt p)) (HT : forall p, P p -> P (PTouch p)) (p : prog) : P p :=
+  match p with
+  | PSrc => HS
+  | PIdx sel p => HI sel p (prog_ind' P HS HI HC HR HT p)
+  | PCat ps => HC ps ((fix go (l : list prog) : Forall P l :=
+                         match l with
+                         | [] => Forall_nil P
+                         | q :: r => Forall_cons q (prog_ind' P HS HI HC HR HT q) (go r)
+                         end) ps)
+  | PRepl j txt p => HR j txt p (prog_ind' P HS HI HC HR HT p)
+  | PTouch p => HT p (prog_ind' P HS HI HC HR HT p)
+  end.
+
+Lemma all_some_Forall2 {A B} (g : A -> option B) l : forall r,
+  all_some (map g l) = Some r -> Forall2 (fun a b => g a = Some b) l r.
+Proof.
+  induction l as [|a l IH]; simpl; intros r H.
+  - inversion H; constructor.
+  - destruct (g a) eqn:E; try discriminate. destruct (all_some (map g l)) eqn:E2; try discriminate.
+    inversion H; subst. constructor; auto.
+Qed.
+
+Lemma incl_takeA {A} (d : A) l sel : in_range (length l) sel -> incl (takeA d l sel) l.
+Proof.
+  intros H y Hy. unfold takeA in Hy. apply in_map_iff in Hy. destruct Hy as (i & <- & Hi).
+  unfold in_range in H. rewrite Forall_forall in H. specialize (H i Hi). apply nth_In. lia.
+Qed.
+
+(* the state reached by a program is a lazy table whose extractor is well-formed, whose abstraction is the
+   specification-level evaluation of the program, and whose replaced columns are the program's *)
+Definition lazy_reaches (f : fmt) (x0 : ext) (p : prog) (st : state) : Prop :=
+  exists x, st = SLazy x (sv_eval p) /\ Inv x /\ view x = aeval (view x0) p /\ incl (view x) (view x0).
+
+Lemma all_some_lazy lz : all_some (map as_lazy (map (fun xs : ext * setv => SLazy (fst xs) (snd xs)) lz)) = Some lz.
+Proof. induction lz as [|[x sv] lz IH]; simpl; auto. rewrite IH. reflexivity. Qed.
+
+Lemma run_lazy f x0 : Inv x0 -> forall p st,
+  (has_concatenate f = true \/ cat_free p = true) ->
+  run f (SLazy x0 []) p = Some st -> lazy_reaches f x0 p st.
+Proof.
+  intros I0 p. induction p as [|sel p IH|ps IH|j txt p IH|p IH] using prog_ind'; intros st Hf H; simpl in H.
+  - inversion H; subst. exists x0. split; [reflexivity|]. split; [exact I0|]. split; [reflexivity|apply incl_refl].
+  - destruct (run f (SLazy x0 []) p) as [s|] eqn:E; try discriminate.
+    destruct (IH s Hf eq_refl) as (x & -> & I & V & In0).
+    simpl in H. destruct (forallb _ sel) eqn:Hr; try discriminate. inversion H; subst.
+    apply in_range_forallb in Hr. pose proof I as (S & _).
+    exists (getitem sel x). split; [reflexivity|]. split; [apply Inv_getitem; auto|]. split.
+    + rewrite view_getitem by auto. simpl. rewrite V. reflexivity.
+    + rewrite view_getitem by auto. eapply incl_tran; [|exact In0]. apply incl_takeA.
+      rewrite view_length; auto.
+  - destruct Hf as [Hf|Hf]; [|discriminate].
+    destruct (all_some (map (run f (SLazy x0 [])) ps)) as [sts|] eqn:E; try discriminate.
+    apply all_some_Forall2 in E.
+    assert (K : exists lz, sts = map (fun xs : ext * setv => SLazy (fst xs) (snd xs)) lz /\
+                Forall2 (fun p xs => snd xs = sv_eval p /\ Inv (fst xs) /\ view (fst xs) = aeval (view x0) p
+                                     /\ incl (view (fst xs)) (view x0)) ps lz).
+    { clear H. induction E as [|p s ps sts Hp E IHE].
+      - exists []. split; auto.
+      - inversion IH as [|? ? IHp IHps]; subst.
+        destruct (IHp s (or_introl Hf) Hp) as (x & -> & I & V & In0).
+        destruct (IHE IHps) as (lz & -> & F2).
+        exists ((x, sv_eval p) :: lz). split; [reflexivity|]. constructor; auto. }
+    destruct K as (lz & -> & F2). rewrite all_some_lazy, Hf in H.
+    match type of H with (if ?c then _ else _) = _ => destruct c eqn:Hsv end; try discriminate. inversion H; subst.
+    assert (FI : Forall Inv (map fst lz)).
+    { clear - F2. induction F2 as [|p xs ps lz (_ & I & _) _ IHF]; simpl; constructor; auto. }
+    assert (FV : map view (map fst lz) = map (aeval (view x0)) ps).
+    { clear - F2. induction F2 as [|p xs ps lz (_ & _ & V & _) _ IHF]; simpl; f_equal; auto. }
+    exists (concatenate (map fst lz)). split; [reflexivity|]. split; [apply Inv_concat; auto|]. split.
+    + rewrite view_concat by auto. simpl. rewrite FV. reflexivity.
+    + rewrite view_concat by auto. clear - F2.
+      induction F2 as [|p xs ps lz (_ & _ & _ & In0) _ IHF]; simpl; [apply incl_nil_l|].
+      apply incl_app; auto.
+  - destruct (run f (SLazy x0 []) p) as [s|] eqn:E; try discriminate.
+    destruct (IH s Hf eq_refl) as (x & -> & I & V & In0).
+    simpl in H. destruct (negb _); try discriminate. inversion H; subst.
+    exists x. split; [reflexivity|]. split; [exact I|]. split; auto.
+  - destruct (run f (SLazy x0 []) p) as [s|] eqn:E; try discriminate.
+    destruct (IH s Hf eq_refl) as (x & -> & I & V & In0). inversion H; subst. simpl.
+    destruct (sv_eval p) eqn:Esv.
+    + exists (contiguous x). split; [simpl; rewrite Esv; reflexivity|]. split; [apply Inv_contiguous; auto|].
+      rewrite view_contiguous by auto. split; auto.
+    + exists x. split; [simpl; rewrite Esv; reflexivity|]. split; [exact I|]. split; auto.
+Qed.
+
+(* ------------------------------------------------------------------ main statements *)
+Lemma width_ok_incl f v v0 : incl v v0 -> width_ok f v0 -> width_ok f v.
+Proof.
+  intros Hi. assert (G : forall k, width_gt k v0 -> width_gt k v).
+  { intros k. unfold width_gt. rewrite !Forall_forall. intros H a Ha. apply H. apply Hi. exact Ha. }
+  destruct f; simpl; auto.
+Qed.
+
+Theorem program_write vr f x0 p out :
+  Inv x0 -> width_ok f (view x0) -> (has_concatenate f = true \/ cat_free p = true) ->
+  match run f (SLazy x0 []) p with Some s => write vr f s | None => None end = Some out ->
+  out = match sv_eval p with
+        | [] => concat (map a_rec (aeval (view x0) p))
+        | sv => concat (render_rows vr f (aeval (view x0) p) sv)
+        end.
+Proof.
+  intros I0 W Hf H. destruct (run f (SLazy x0 []) p) as [s|] eqn:E; try discriminate.
+  destruct (run_lazy f x0 I0 p s Hf E) as (x & -> & I & V & In0).
+  assert (Wx : width_ok f (view x)) by (eapply width_ok_incl; eauto).
+  destruct (sv_eval p) as [|kc sv] eqn:Esv.
+  - rewrite write_lazy in H by auto. inversion H; subst. rewrite V. reflexivity.
+  - destruct (is_bam f) eqn:Eb.
+    + destruct f; discriminate.
+    + rewrite write_lazy in H by auto. inversion H; subst. rewrite V. reflexivity.
+Qed.
+
+Lemma sv_eval_repl_free p : repl_free p = true -> sv_eval p = [].
+Proof.
+  induction p as [|sel p IH|ps IH|j txt p IH|p IH] using prog_ind'; simpl; intros H; auto; try discriminate.
+  rewrite IH; auto.
+Qed.
+
+Theorem selection_write vr f x0 p out :
+  Inv x0 -> width_ok f (view x0) -> (has_concatenate f = true \/ cat_free p = true) -> repl_free p = true ->
+  match run f (SLazy x0 []) p with Some s => write vr f s | None => None end = Some out ->
+  out = concat (map a_rec (aeval (view x0) p)).
+Proof.
+  intros I0 W Hf Hr H. apply program_write in H; auto. rewrite sv_eval_repl_free in H by auto. exact H.
+Qed.
+
+(* reflection of the decidable well-formedness check *)
+Lemma row_ok_b_sound dlen r : row_ok_b dlen r = true -> row_ok dlen r.
+Proof.
+  unfold row_ok_b, row_ok. rewrite !andb_true_iff. intros ((((A & B) & C) & D) & E).
+  apply Nat.eqb_eq in D. repeat split; try lia.
+  rewrite forallb_forall in E. rewrite Forall_forall. intros al Hal. specialize (E al Hal). lia.
+Qed.
+
+Lemma zlist_eqb_eq a : forall b, zlist_eqb a b = true -> a = b.
+Proof.
+  unfold zlist_eqb. induction a as [|x a IH]; intros [|y b]; simpl; intros H; try discriminate; auto.
+  apply andb_true_iff in H. destruct H as (H1 & H2). apply Z.eqb_eq in H1. f_equal; auto.
+Qed.
+Lemma zlist_eqb_refl a : zlist_eqb a a = true.
+Proof. unfold zlist_eqb. induction a; simpl; auto. rewrite Z.eqb_refl. auto. Qed.
+
+Lemma inv_b_sound x : inv_b x = true -> Inv x.
+Proof.
+  unfold inv_b, Inv, shape_ok. rewrite !andb_true_iff. intros ((((A & B) & C) & D) & E).
+  apply Nat.eqb_eq in A, B, C. repeat split; auto.
+  - rewrite forallb_forall in D. rewrite Forall_forall. intros r Hr. apply row_ok_b_sound; auto.
+  - intros Hc. rewrite Hc in E. simpl in E. apply zlist_eqb_eq; auto.
+Qed.
+
+Lemma width_b_sound f v : width_b f v = true -> width_ok f v.
+Proof.
+  destruct f; simpl; auto; unfold width_gt.
+  - intros H Hn. apply orb_true_iff in H. destruct H as [H|H].
+    + apply negb_true_iff in H. lia.
+    + rewrite forallb_forall in H. rewrite Forall_forall. intros a Ha. specialize (H a Ha).
+      apply Nat.ltb_lt in H. exact H.
+  - intros H. rewrite forallb_forall in H. rewrite Forall_forall. intros a Ha. specialize (H a Ha).
+    apply Nat.ltb_lt in H. exact H.
+Qed.
+
+(* ------------------------------------------------------------------ link to the byte-level Spec for pure selections *)
+Lemma map_takeA {A B} (g : A -> B) d l sel : map g (takeA d l sel) = takeA (g d) (map g l) sel.
+Proof. unfold takeA. rewrite map_map. apply map_ext. intros i. symmetry. apply map_nth. Qed.
+
+Lemma spec_eval_pure f recs p : cat_free p = true -> repl_free p = true ->
+  snd (spec_eval f (map (srow_of f) recs) p) = true /\
+  map s_raw (fst (spec_eval f (map (srow_of f) recs) p)) = map a_rec (aeval (map (gview f) recs) p).
+Proof.
+  induction p as [|sel p IH|ps IH|j txt p IH|p IH] using prog_ind'; simpl; intros Hc Hr; try discriminate.
+  - split; auto. rewrite !map_map. reflexivity.
+  - destruct (IH Hc Hr) as (A & B). destruct (spec_eval f (map (srow_of f) recs) p) as [r b]. simpl in *.
+    split; auto. rewrite !map_takeA. simpl. rewrite B. reflexivity.
+  - apply IH; auto.
+Qed.
+
+Theorem selection_meets_spec vr f recs x0 p out :
+  Inv x0 -> width_ok f (view x0) -> view x0 = map (gview f) recs ->
+  cat_free p = true -> repl_free p = true ->
+  match run f (SLazy x0 []) p with Some s => write vr f s | None => None end = Some out ->
+  spec_out_ok f recs p (Some out) = true.
+Proof.
+  intros I0 W V Hc Hr H. apply selection_write in H; auto. subst out.
+  unfold spec_out_ok. destruct (spec_eval_pure f recs p Hc Hr) as (A & B).
+  destruct (spec_eval f (map (srow_of f) recs) p) as [rows pure]. simpl in *. subst pure.
+  rewrite B, V. apply zlist_eqb_refl.
+Qed.
